@@ -334,13 +334,13 @@ macro_rules! c18 {
 c18!(c18_empty_stale0_borrowed, 5, empty_list_after_stale(0, Api::Borrowed));
 // @verif property=C18 tier=quick timeout=600 bounds="BorrowedCurve::new(any mode, [], any Option<f64>) on buffers holding 2 arbitrary stale path points / lengths / vertices"
 c18!(c18_empty_stale2_borrowed, 6, empty_list_after_stale(2, Api::Borrowed));
-// @verif property=C18 tier=quick timeout=600 bounds="Curve::new(any mode, [], any Option<f64>) on buffers holding 2 arbitrary stale entries"
+// @verif property=C18,C01 tier=quick timeout=600 bounds="Curve::new(any mode, [], any Option<f64>) on buffers holding 2 arbitrary stale entries"
 c18!(c18_empty_stale2_owned, 6, empty_list_after_stale(2, Api::Owned));
 // @verif property=C18 tier=quick timeout=600 bounds="BorrowedCurve::new(any mode, [], ..) on buffers holding 4 arbitrary stale entries"
 c18!(c18_empty_stale4_borrowed, 8, empty_list_after_stale(4, Api::Borrowed));
 
 // ---- single point ----
-// @verif property=C18 tier=quick timeout=600 bounds="BorrowedCurve::new(any mode, [p], any Option<f64>), p arbitrary, buffers holding 2 arbitrary stale entries"
+// @verif property=C18,C01 tier=quick timeout=600 bounds="BorrowedCurve::new(any mode, [p], any Option<f64>), p arbitrary, buffers holding 2 arbitrary stale entries"
 c18!(c18_single_stale2_borrowed, 6, single_point_after_stale(2, Api::Borrowed));
 // @verif property=C18 tier=quick timeout=600 bounds="Curve::new(any mode, [p], any Option<f64>), buffers holding 3 arbitrary stale entries"
 c18!(c18_single_stale3_owned, 7, single_point_after_stale(3, Api::Owned));
